@@ -273,7 +273,7 @@ def loosely_measure(obj):
         calls += [lambda: obj.length(0.5, 1, error=size, min_depth=0), lambda: obj.length(0.25, 0.75, size, 1),
                   lambda: obj.length(1, 0, error=size, min_depth=0)]
         calls += [lambda: obj.ilength(0.3 * obj.length(error=size, min_depth=0), s_tol=0.1 * size, maxits=20, error=size, min_depth=0)]
-    calls += [lambda: obj.length(error=size, min_depth=0)]
+    calls += [lambda: obj.length(error=size, min_depth=0), lambda: obj.length(error=size)]
     with warnings.catch_warnings():
         warnings.simplefilter('ignore')
         for q in calls:
@@ -338,7 +338,7 @@ def derive_path(p):
             q = p.scaled(1.0)
         elif prov == 'measured':
             for f in (lambda: p.length(), lambda: p.point(0.3), lambda: p.bbox(), lambda: p.start, lambda: p.end,
-                      lambda: p.length(0.5), lambda: p.length(T1=0.5), lambda: p.length(0.2, 0.7), lambda: [sg.length(0.5) for sg in p],
+                      lambda: p.length(0.5), lambda: p.length(T1=0.5), lambda: p.length(0.2, 0.7), lambda: [sg.length(0.5) for sg in p], lambda: [sg.length(1, 0) for sg in p],
                       lambda: p.isclosed() if p.iscontinuous() else None, lambda: p.T2t(0.6), lambda: p.d()):
                 try:
                     f()
